@@ -146,6 +146,8 @@ def cycleVarRange (v : String) (start : Option Rv) : List Instr :=
    | none => [.moveq (.int 0) (.loopVar .first)]
    | some s => genRv s (.to (.loopVar .first))) ++
   [.move (.loopVar .first) (.var v)] ++
+  testOp .eq (.push (.loopVar .counter)) (.pushq (.int 0)) ++
+  [.jump .ifFalse 3, .moveq (.int 0) (.loopVar .incr), .jump .always 12] ++
   testOp .eq (.push (.reg .unitMode)) (.pushq (.mode .raw)) ++
   [.jump .ifFalse 3, .pushq (.int 65536), .jump .always 2, .pushq (.int 360),
    .push (.loopVar .counter), .op .div, .pop (.loopVar .incr)]
